@@ -19,10 +19,14 @@ Two layers, both mirroring the code:
 other text reaching `eval` yields `Err.oom` ("outside the model"), which the harness recognises on
 the real side by spying on `eval`.
 
-`Cfg.fixResolve` / `Cfg.fixReserved` select the repaired code (the `fix:` patches
-`C16-resolve-leading-dot` and `C16-reserved-level`); `false` is the code before the patch, kept for
-the witnesses.  `__copy__` before its patch shares objects and needs identities: see `Cpppo.Dotdict.Heap`
-at the end of this file.
+`Cfg.fixResolve = false` is `_resolve` as it is: when the key reduces to one leading dot and a single
+name (`'.c'`), the loop that skips empty leading terms leaves `rest` holding the text it has just moved
+into `mine`, so `_resolve('.c')` is `('c','c')`.  The library depends on that (automata stores and reads
+`path + '.input'` with an empty path), so it is modelled as it is and listed as a known finding;
+`fixResolve = true` is the alternative in which `rest` is cleared, kept for the full-strength theorem.
+`Cfg.fixReserved = true` is the code after `fix: dotdict refuses reserved names for intermediate levels
+too`; `false` the code before it, kept for the witness.  `__copy__` before its `fix:` shares objects and
+needs identities: see `Cpppo.Dotdict.Heap` at the end of this file.
 No imports: this file is linked into the `cpppo_model` driver.
 -/
 namespace Cpppo.Dotdict
@@ -92,7 +96,7 @@ deriving Repr
 
 structure Cfg where
   reserved    : List Name
-  fixResolve  : Bool := true
+  fixResolve  : Bool := false
   fixReserved : Bool := true
 
 /-! ### text level: `_resolve` -/
@@ -147,8 +151,8 @@ def balance : Nat → Name → Name → Except Err (Name × Name)
       | some (ext, r') => balance n (m ++ '.' :: ext) r'
 
 /-- `while '.' in mine: mine,rest = mine.split('.',1); if mine: …; break; mine = rest`.
-`stale` is the value `rest` holds when the loop is left through its condition: before the
-`fix:` it still holds the text that was just moved into `mine`. -/
+`stale` is the value `rest` holds when the loop is left through its condition: in the code as it is
+(`fixed = false`) it still holds the text that was just moved into `mine`. -/
 def lead (fixed : Bool) : Name → Option Name → Except Err (Name × Option Name)
   | [], stale => .ok ([], stale)
   | c :: s, stale =>
